@@ -317,39 +317,50 @@ class ModelCompiler:
     def extract(model, focus):
         extracted_model = Model()
 
+        def copy_defined_name(name):
+            """Copy a defined name; returns the cells it refers to."""
+            if name in extracted_model.defined_names:
+                return []
+            extracted_model.defined_names[name] = defn = copy.deepcopy(
+                model.defined_names[name])
+            if isinstance(defn, xltypes.XLCell):
+                return [defn.address]
+            if isinstance(defn, xltypes.XLRange):
+                extracted_model.ranges[defn.address_str] = defn
+                return [address for row in defn.cells for address in row]
+            return []
+
+        # Copy the focused cells and names and, transitively, every cell,
+        # range and defined name that their formulas refer to.
+        todo = []
         for address in focus:
             if isinstance(address, str) and address in model.cells:
-                extracted_model.cells[address] = copy.deepcopy(
-                    model.cells[address])
-
+                todo.append(address)
             elif isinstance(address, str) and address in model.defined_names:
+                todo.extend(copy_defined_name(address))
 
-                extracted_model.defined_names[address] = defn = copy.deepcopy(
-                    model.defined_names[address])
-
-                if isinstance(defn, xltypes.XLCell):
-                    extracted_model.cells[defn.address] = copy.deepcopy(
-                        model.cells[defn.address])
-
-                elif isinstance(defn, xltypes.XLRange):
-                    for row in defn.cells:
-                        for column in row:
-                            extracted_model.cells[column] = copy.deepcopy(
-                                model.cells[column])
-
-        terms_to_copy = []
-        for addr, cell in extracted_model.cells.items():
-            if cell.formula is not None:
-                for term in cell.formula.terms:
-                    if (term in extracted_model.cells
-                            and cell.formula != model.cells[addr].formula):
-                        cell.formula = copy.deepcopy(model.cells[addr].formula)
-
-                    elif term not in extracted_model.cells:
-                        terms_to_copy.append(term)
-
-        for term in terms_to_copy:
-            extracted_model.cells[term] = copy.deepcopy(model.cells[term])
+        while todo:
+            address = todo.pop()
+            if address in extracted_model.cells or address not in model.cells:
+                continue
+            extracted_model.cells[address] = cell = copy.deepcopy(
+                model.cells[address])
+            if cell.formula is None:
+                continue
+            extracted_model.formulae[address] = cell.formula
+            for term in cell.formula.terms:
+                name = term.split('!')[-1]
+                if term in model.ranges:
+                    extracted_model.ranges[term] = copy.deepcopy(
+                        model.ranges[term])
+                    todo.extend(
+                        address
+                        for row in model.ranges[term].cells
+                            for address in row)  # noqa: E131
+                elif term not in model.cells and name in model.defined_names:
+                    todo.extend(copy_defined_name(name))
+                else:
+                    todo.append(term)
 
         extracted_model.build_code()
 
